@@ -53,7 +53,7 @@ CLAIMS = {
         "grids of any length. The words are compared exactly with the real analog_tjm_1/2 run with recording stubs (real "
         "has_scheduled_jump); the binary64 time-matching model is compared bit-exactly with has_scheduled_jump up to 10^6 steps. "
         "PARTIAL: the numerical action of the operator (application, two-site merge/split, renormalisation) is covered by the "
-        "dense 'apply once at t_k' search only. Extended: the time-matching tests of has_scheduled_jump/apply_scheduled_jumps are regenerated from the source and proved equal to the model and to each other; local-operator theorem for the action of a one-site jump. Scheduled jumps with the user's own matrix under own and library names.",
+        "dense 'apply once at t_k' search only. Extended: the time-matching tests of has_scheduled_jump/apply_scheduled_jumps are regenerated from the source and proved equal to the model and to each other; local-operator theorem for the action of a one-site jump. Scheduled jumps with the user's own matrix under own and library names. Several trajectories on one sampled noise model (scheduled jumps next to a stochastic channel of negligible rate), serial and through worker processes, each against the dense reference.",
         COMMON_NOTE + "Assumes the state is determined by the word of kernel calls.",
         "DESIGN.md §3 C14"),
     "C15": (
@@ -88,7 +88,7 @@ CLAIMS = {
         "_run_weak_sim on enumerated and random histories, serial and parallel (deterministic executor). The search runs real "
         "simulations: reused vs fresh noise-free results, deep equality of circuit/Hamiltonian/noise model before and after, one "
         "OS-seeded Generator per trajectory with distinct states. PARTIAL: statistical independence of separately OS-seeded "
-        "generators (also across forked workers) is a property of NumPy/the OS and is not modelled. Extended: layer-sampling histories (columns depend on the circuit of the run only). Real pools of four workers: no trajectory repeats another of the same or previous run; generator-per-trajectory is a correspondence, not a demand. One AnalogSimParams object served by TJM, MCWF and Lindblad in any order (run_analog model + trace). State-ray check with an asymmetric initial state. Noise models with switched-off channels next to live ones and with drawn strengths, the Lindblad solver, scheduled jumps and long-range factors in the before/after snapshot. Aliasing model (ObjStore): theorem that writes addressed to objects the run allocated leave every caller object unchanged; tie: NoiseModel.sample() shares nothing with its source, operation sequences on the real sample vs run_on_sample, run() hands a sample to every front-end.",
+        "generators (also across forked workers) is a property of NumPy/the OS and is not modelled. Extended: layer-sampling histories (columns depend on the circuit of the run only). Real pools of four workers: no trajectory repeats another of the same or previous run; generator-per-trajectory is a correspondence, not a demand. One AnalogSimParams object served by TJM, MCWF and Lindblad in any order (run_analog model + trace). State-ray check with an asymmetric initial state. Noise models with switched-off channels next to live ones and with drawn strengths, the Lindblad solver, scheduled jumps and long-range factors in the before/after snapshot. Aliasing model (ObjStore): theorem that writes addressed to objects the run allocated leave every caller object unchanged; tie: NoiseModel.sample() shares nothing with its source, operation sequences on the real sample vs run_on_sample, run() hands a sample to every front-end. Scheduled jumps next to a channel of negligible rate: every trajectory of a run is the same evolution whatever its index or worker.",
         COMMON_NOTE,
         "DESIGN.md §3 C20"),
     "C18": (
@@ -184,7 +184,7 @@ CLAIMS = {
         "the model. PARTIAL (searched, not mechanised): dense interpretation of the tensors, dense = sparse, SVD compression within "
         "tolerance, from_matrix round trip, boson/transmon automata, the other circuit builders (Heisenberg, 2-D snake order, "
         "Fermi-Hubbard ladders) and Lie-Trotter convergence — every builder is compared with the dense sum of its documented terms and "
-        "every circuit with exp(-iHT) at 4/8/16 steps. Extended: HamTerms (term lists of hamiltonian/ising/heisenberg; bonds, fields, coefficients, count; captured-argument tie), ChainFSM (all-lengths theorem for the Start/channel/End automaton; bose_hubbard tensors decoded against it), Transmon (exact decoding; bounded theorem for lengths 1..12), every compression schedule in the oracle. Sequential splitting first-order with commutator defect, symmetric splitting second-order (Strang.v). Heisenberg and Fermi-Hubbard Trotter steps modelled (heis_step, fh_step) with gate-list/angle ties.",
+        "every circuit with exp(-iHT) at 4/8/16 steps. Extended: HamTerms (term lists of hamiltonian/ising/heisenberg; bonds, fields, coefficients, count; captured-argument tie), ChainFSM (all-lengths theorem for the Start/channel/End automaton; bose_hubbard tensors decoded against it), Transmon (exact decoding; bounded theorem for lengths 1..12), every compression schedule in the oracle. Sequential splitting first-order with commutator defect, symmetric splitting second-order (Strang.v). Heisenberg and Fermi-Hubbard Trotter steps modelled (heis_step, fh_step) with gate-list/angle ties. from_matrix on structured matrices (weak terms, small scales, explicit cutoff) against the documented discard bound.",
         COMMON_NOTE,
         "DESIGN.md §3 C07"),
     "C10": (
@@ -221,7 +221,7 @@ CLAIMS = {
         "recording identity kernels on random bond patterns and caps. PARTIAL: exactness of the local Krylov steps (C19), truncation "
         "error (C09), second order of the symmetric splitting / first order of BUG are not mechanised; the search checks norm and "
         "energy drift and the error against the dense exp(-iHt) at dt and dt/2 (ratio test above the noise floor) and the agreement "
-        "of the two integrator orders. Extended: step_ops (which operator tensors a step works with) with theorem and operator-identity trace incl. an MPO object rebuilt in place; wide 8-site chains (matrix-free local steps). BUG step list (bug.bug) modelled and traced: every site forward by one dt once, own operator tensor and environment blocks, truncation last. One-site integrator model (SingleSite.v); mirrored sweeps second-order (Strang.v). Eight-level Bose-Hubbard chain with nothing cut (local blocks of 4096 entries: compiled Krylov path) vs exp(-iHT).",
+        "of the two integrator orders. Extended: step_ops (which operator tensors a step works with) with theorem and operator-identity trace incl. an MPO object rebuilt in place; wide 8-site chains (matrix-free local steps). BUG step list (bug.bug) modelled and traced: every site forward by one dt once, own operator tensor and environment blocks, truncation last. One-site integrator model (SingleSite.v); mirrored sweeps second-order (Strang.v). Eight-level Bose-Hubbard chain with nothing cut (local blocks of 4096 entries: compiled Krylov path) vs exp(-iHT). The shortest runs (one and two steps, both orders, with and without intermediate sampling, both modes) vs exp(-iHT).",
         COMMON_NOTE,
         "DESIGN.md §3 C05"),
     "C19": (
@@ -233,7 +233,7 @@ CLAIMS = {
         "applications of the real expm_krylov on invariant-subspace starts and on runs that can neither break down nor converge vs "
         "the dimension the skeleton predicts. PARTIAL (searched): floating-point Lanczos orthogonality, LAPACK, and the accuracy "
         "bound — expm_krylov / expm_arnoldi are compared with scipy.linalg.expm for Hermitian / non-Hermitian operators, deficient "
-        "starts, +-dt, sizes around the dense (128) and compiled (4096) switches; norm preservation on every path. Extended: defective generators, negative steps, dense-vs-matrix-free comparison. Nearly invariant Krylov spaces (weak blocks, near-eigenvector starts, small units) in the accuracy oracle. Local TDVP updates vs the exponential of the local operator down to one-entry tensors. Breakdown exit exact for every polynomial (LinAlg/Intertwine.v).",
+        "starts, +-dt, sizes around the dense (128) and compiled (4096) switches; norm preservation on every path. Extended: defective generators, negative steps, dense-vs-matrix-free comparison. Nearly invariant Krylov spaces (weak blocks, near-eigenvector starts, small units) in the accuracy oracle. Local TDVP updates vs the exponential of the local operator down to one-entry tensors. Breakdown exit exact for every polynomial (LinAlg/Intertwine.v). Evaluations in flight at the same time: re-entrant (interaction-picture) operators and interleaved evaluations of the same size.",
         COMMON_NOTE,
         "DESIGN.md §3 C19"),
     "C17": (
